@@ -164,6 +164,30 @@ def f_ordered(a):
     return a.T.copy().T
 
 
+def derived_fxp(P, how, signed, n_word, n_frac, codes, shape=(), **kw):
+    """An object with the given logical codes / shape that was DERIVED from another object by a real library operation
+    (its cached attributes -- real, imag -- are then whatever that operation leaves behind, its memory layout too):
+      'T'        2-d: the transpose of the transposed base (a shallow copy with a column-major view of the codes)
+      'rev'      1-d: base[::-1] of the reversed base (a negative-stride view; __getitem__ builds the element object)
+      'item'     0-d: element 1 of a two-element base
+      'flatten'  1-d: flatten() of a (1, n) base
+      'copy'     any: copy() (shallow: shares status / config with the base)"""
+    codes = list(codes); shape = tuple(shape)
+    if how == 'T':
+        r, c = shape
+        base = make_fxp(P, signed, n_word, n_frac, codes=[codes[i * c + j] for j in range(c) for i in range(r)], shape=(c, r), **kw)
+        return base.T
+    if how == 'rev':
+        return make_fxp(P, signed, n_word, n_frac, codes=codes[::-1], shape=shape, **kw)[::-1]
+    if how == 'item':
+        return make_fxp(P, signed, n_word, n_frac, codes=[codes[0], codes[0]], shape=(2,), **kw)[1]
+    if how == 'flatten':
+        return make_fxp(P, signed, n_word, n_frac, codes=codes, shape=(1, len(codes)), **kw).flatten()
+    if how == 'copy':
+        return make_fxp(P, signed, n_word, n_frac, codes=codes, shape=shape, **kw).copy()
+    raise ValueError(how)
+
+
 def make_fxp(P, signed, n_word, n_frac, codes=None, shape=(), cfg=None, status=None, vdtype=None,
              scale=1, bias=0, callbacks=None, forder=False):
     """An Fxp whose attributes satisfy the representation invariant `wf`, with the given codes."""
